@@ -140,4 +140,12 @@ theorem C04_schema_entries_count (name : String) (fi mi : List (Nat × Nat)) (fu
     js.length = es.length :=
   Codec.checkEntries_length name fi mi fuel i js es h
 
+/-- end to end through the reader (`parseDec` → `decIsKey` → `valueIs`): for a double `≥ 2^52`, a
+    plain digit string whose value is the double's exact integer value is accepted as that double -/
+theorem C04_schema_exact_int_text_accepted (cs : List Char) (n t : Nat) (hne : cs ≠ [])
+    (hd : ∀ c ∈ cs, c.isDigit = true) (hv : Codec.digitsVal cs = some ((2 ^ 52 + n % 2 ^ 52) * 2 ^ t))
+    (ht : n / 2 ^ 52 = 1075 + t) (hf : n / 2 ^ 52 < 2047) :
+    Codec.valueIs (.num (String.ofList cs)) (.f64 (n : Int)) = true :=
+  Codec.valueIs_exact_int_text cs n t hne hd hv ht hf
+
 end Sod.Props
